@@ -302,7 +302,7 @@ static void c06_exec(const op_t *op, int opidx) {
 	reg *r = &R[slot];
 	(void)opidx;
 	if (0 == strcmp(k, "wait")) { sim_sleep_ns((uint64_t)item_get(it, "ns", 1000), "actor.wait"); return; }
-	if (0 == strcmp(k, "add") || 0 == strcmp(k, "enable") || 0 == strcmp(k, "disable") || 0 == strcmp(k, "del")) {
+	if (0 == strcmp(k, "add") || 0 == strcmp(k, "enable") || 0 == strcmp(k, "disable") || 0 == strcmp(k, "del") || 0 == strcmp(k, "reopen")) {
 		if (r->ctl_busy) sim_block(pred_ctl_free, r, 0, "c06.ctl_wait");
 		r->ctl_busy = 1;
 		if (r->created && !on_owner(r)) {
@@ -386,6 +386,30 @@ static void c06_ctl(const op_t *op, reg *r, int slot) {
 			}
 			if (!r->fuzzy) timer_check_programmed(r, "tpt_ev_enable", t0);
 		}
+		return;
+	}
+	if (0 == strcmp(k, "reopen")) {
+		/* The application closes the registered descriptor WITHOUT deleting the registration (the kernel drops it from
+		 * the epoll set by itself), opens the next connection - same descriptor number as a rule - and enables the
+		 * same tp_udata again with the same flags. Whatever the registration remembers from before, the event must be
+		 * installed for the new descriptor. Only on the owning thread and only for a plain, live read registration. */
+		int p[2];
+		uint16_t fl = r->flags;
+		if (!is_read_kind(r->kind) || r->relaxed || r->fuzzy || !on_owner(r) || r->fd < 0 || NULL == r->u.tpt || !r->registered || !r->enabled) return;
+		close(r->fd); sim_fd_forget(r->fd);
+		if (r->peer >= 0) { close(r->peer); sim_fd_forget(r->peer); }
+		r->fd = r->peer = -1;
+		if (r->kind == RK_PIPE_R) { if (0 != pipe2(p, O_NONBLOCK | O_CLOEXEC)) return; r->fd = p[0]; r->peer = p[1]; }
+		else { if (0 != socketpair(AF_UNIX, SOCK_STREAM | SOCK_NONBLOCK | SOCK_CLOEXEC, 0, p)) return; r->fd = p[0]; r->peer = p[1]; }
+		sim_fd_note_harness(p[0]); sim_fd_note_harness(p[1]);
+		r->u.ident = (uintptr_t)r->fd;
+		r->unread = 0; r->peer_closed = 0; r->peer_reset = 0; r->eof_seen = 0; r->err_seen = 0;
+		sim_fd_activity();
+		r->registered = 1; r->enabled = 1; r->fire_since_arm = 0; r->late_allowed = 0; r->arm_seq = sim_evseq();
+		rc = tpt_ev_enable_args(1, TP_EV_READ, fl, 0, 0, &r->u);
+		sim_log("reopen slot=%d new fd=%d fl=%x -> %d", slot, r->fd, fl, rc);
+		sim_probe("ev.reopen_same_udata");
+		if (0 != rc) CTLV("ev-ctl-failed", "slot %d: enabling the registration for a freshly opened descriptor (flags %x) failed with %d", slot, fl, rc);
 		return;
 	}
 	if (0 == strcmp(k, "disable")) {
@@ -609,6 +633,10 @@ static void c06_gen(plan_t *p, rng_t *r, int tier) {
 			op = plan_add_op(p, "del");
 			item_set(&op->it, "r", s);
 			item_set(&op->it, "own", rng_chance(r, 850));
+		} else if (k < 80) {
+			op = plan_add_op(p, "reopen");
+			item_set(&op->it, "r", s);
+			item_set(&op->it, "own", 1);
 		} else if (k < 88) {
 			op = plan_add_op(p, "wait");
 			item_set(&op->it, "ns", (long long)rng_range(r, 1000, 60000000));
